@@ -162,11 +162,17 @@ def main():
     cases = [json.loads(l) for l in open(pre + '.cases.jsonl')]
     blocks = blocks_of_requests(req)
     mems = memories(req)
-    # model: one run
-    m = subprocess.run([o['--symdrv']], input='model expr\n' + '\n'.join(req) + '\n', capture_output=True, text=True)
-    if m.returncode != 0:
-        print('symdrv failed:', m.stderr); sys.exit(2)
-    M = transcript(m.stdout)
+    # model: the blocks are self-contained (each starts with `reset`), so they run in parallel too (one long run is slow: the
+    # driver's cost grows faster than linearly with the length of its input)
+    def runmodel(b):
+        m = subprocess.run([o['--symdrv']], input='model expr\n' + '\n'.join(b) + '\n', capture_output=True, text=True)
+        if m.returncode != 0:
+            print('symdrv failed:', m.stderr); sys.exit(2)
+        return m.stdout
+    with ThreadPoolExecutor(max_workers=int(o['--jobs'])) as ex:
+        mouts = list(ex.map(runmodel, blocks))
+    M = []
+    for t in mouts: M.extend(transcript(t))
     # harness: blocks in parallel
     def runblock(b):
         r = subprocess.run([o['--harness'], o['--timeout']], input='\n'.join(b) + '\n', capture_output=True, text=True,
